@@ -52,6 +52,8 @@ def run(ctx) -> None:
     lines_parsed_independently(ctx, "C09.N4.lines-parsed-independently")
     from ._parser import forwarding_rule
     forwarding_rule(ctx, "C09.N4.lines-reach-the-parser-as-written")
+    from ._matchrules import assembly_text_unmodified
+    assembly_text_unmodified(ctx, "C09.N4.listing-read-in-text-mode")
     paths, sites, pats = instr_patterns(I)
     from ._parser import operands_from_operand_group
     operands_from_operand_group(ctx, "C09.N6.operands-only-from-operand-group", I, sites)
